@@ -75,7 +75,7 @@ class QCase:
 
 
 class QGen:
-    def __init__(self, rng: random.Random, today: dt.date, *, idents=None, keys=None, desc_words=None, files=None, links=None, max_depth: int = 3, atom_weights: Optional[dict] = None):
+    def __init__(self, rng: random.Random, today: dt.date, *, idents=None, keys=None, desc_words=None, files=None, links=None, max_depth: int = 3, atom_weights: Optional[dict] = None, date_pool=None, str_values=None, int_values=None, date_values=None):
         from zorg.domain import models as M
         from zorg.domain import types as T
 
@@ -88,6 +88,10 @@ class QGen:
         self.files = files or ["foo", "a_b", "axb", "sub/prj", "notes", "p"]
         self.links = links or ["foo", "a_b", "sub/prj", "notes"]
         self.max_depth = max_depth
+        self.date_pool = date_pool
+        self.str_values = str_values or STR_VALUES
+        self.int_values = int_values or INT_VALUES
+        self.date_values = date_values or DATE_VALUES
         self.features: set = set()
         self.has_exists = False
         self.w = {"kind": 3, "prio": 2, "tag": 4, "sub": 2, "create": 2, "modify": 2, "prop": 4, "desc": 3, "file": 2, "link": 2}
@@ -129,8 +133,11 @@ class QGen:
     def zdate(self):
         rng = self.rng
         r = rng.random()
-        if r < 0.35:
-            d = dt.date(2024, 1, 1) + dt.timedelta(days=rng.randint(0, 2500))
+        if r < 0.35 or (self.date_pool and r < 0.6):
+            if self.date_pool:
+                d = rng.choice(self.date_pool) + dt.timedelta(days=rng.choice([0, 0, 0, -1, 1]))
+            else:
+                d = dt.date(2024, 1, 1) + dt.timedelta(days=rng.randint(0, 2500))
             self.features.add("date-short")
             return d.strftime("%y%m%d")
         unit = rng.choice("dmy")
@@ -163,11 +170,11 @@ class QGen:
         op_txt, op = rng.choice([("", T.PropertyOperator.EQ), ("<", T.PropertyOperator.LT), ("<=", T.PropertyOperator.LE), (">", T.PropertyOperator.GT), (">=", T.PropertyOperator.GE)])
         kind = rng.choice(["str", "int", "date"])
         if kind == "str":
-            v, vt = rng.choice(STR_VALUES), T.PropertyValueType.STRING
+            v, vt = rng.choice(self.str_values), T.PropertyValueType.STRING
         elif kind == "int":
-            v, vt = rng.choice(INT_VALUES), T.PropertyValueType.INTEGER
+            v, vt = rng.choice(self.int_values), T.PropertyValueType.INTEGER
         else:
-            v, vt = rng.choice(DATE_VALUES), T.PropertyValueType.DATE
+            v, vt = rng.choice(self.date_values), T.PropertyValueType.DATE
         self.features.add(f"prop-{kind}-{op.name}" + ("!" if neg else ""))
         pf = self.M.PropertyFilter(key, v, op=op, value_type=vt, negated=neg)
         return ("!" if neg else "") + f"{key}:{op_txt}{v}", lambda f: f["property_filters"].add(pf)
